@@ -99,28 +99,30 @@ Definition scheme_ok (s : text) : bool :=
 Definition count_char (c : N) (s : text) : nat := length (filter (N.eqb c) s).
 
 (* host [":" port] : IP-literal (approximated: '[' hex digits, ':' and '.' ']') or reg-name *)
+Definition regname_port_ok (iri : bool) (s : text) : bool :=
+  let '(h, rest) := span (nin [58]) s in
+  legal (ok_regname iri) h &&
+  match rest with
+  | [] => true
+  | _ :: p => forallb digit p            (* the character the span stopped at is the ':' *)
+  end.
+
+Definition ipliteral_port_ok (r : text) : bool :=
+  let '(inner, rest) := span (nin [93]) r in
+  match inner, rest with
+  | _ :: _, _ :: after =>                 (* the character the span stopped at is the ']' *)
+    forallb (fun c => hexdig c || memN c [58; 46]) inner &&
+    match after with
+    | [] => true
+    | c :: p => (c =? 58) && forallb digit p
+    end
+  | _, _ => false
+  end.
+
 Definition hostport_ok (iri : bool) (s : text) : bool :=
   match s with
-  | 91 :: r =>
-    let '(inner, rest) := span (nin [93]) r in
-    match inner, rest with
-    | _ :: _, 93 :: after =>
-      forallb (fun c => hexdig c || memN c [58; 46]) inner &&
-      match after with
-      | [] => true
-      | 58 :: p => forallb digit p
-      | _ => false
-      end
-    | _, _ => false
-    end
-  | _ =>
-    let '(h, rest) := span (nin [58]) s in
-    legal (ok_regname iri) h &&
-    match rest with
-    | [] => true
-    | 58 :: p => forallb digit p
-    | _ => false
-    end
+  | c :: r => if c =? 91 then ipliteral_port_ok r else regname_port_ok iri s
+  | [] => regname_port_ok iri s
   end.
 
 Definition authority_ok (iri : bool) (a : text) : bool :=
